@@ -290,6 +290,7 @@ static void forget_sink(int sid) { g_sinks.erase(sid); }
 static std::map<int, LoggerT*> g_loggers;
 static std::map<int, std::vector<int>> g_logger_sinks;
 static long g_next_id = 0;
+static std::map<int, bool> g_actor_has_ctx; // actor has executed a queue-writing call (its context exists)
 static thread_local int g_evals = 0; // argument evaluations on the calling thread
 static std::map<std::string, std::string> g_inject; // "site.k" -> op
 static std::map<int, int> g_site_count;
@@ -494,6 +495,8 @@ static std::string exec_op(std::vector<std::string> const& w)
         int const ev0 = g_evals;
         uint64_t const b0 = a->last_writer_bytes;
         std::string r;
+        try
+        {
         if (op == "L")
         {
           bool called = false;
@@ -515,8 +518,15 @@ static std::string exec_op(std::vector<std::string> const& w)
           LOG_BACKTRACE(lg, "{}", H2_ARG(id, len));
           r = "id=" + std::to_string(id);
         }
+        }
+        catch (quill::QuillError const&)
+        {
+          // a record larger than the unbounded queue's maximum capacity is rejected with an error
+          r = "id=" + std::to_string(id) + " threw";
+        }
         uint64_t const b1 = writer_bytes();
         a->last_writer_bytes = b1;
+        if (quill::detail::LoggerBase::thread_context) { g_actor_has_ctx[a->id] = true; }
         r += " ev=" + std::to_string(g_evals - ev0);
 #if H2_VARIANT <= 1
         r += " bytes=" + std::to_string(b1 - b0);
@@ -611,6 +621,27 @@ static std::string exec_op(std::vector<std::string> const& w)
     g_loggers[g] = valid ? out : nullptr;
     g_logger_sinks[g] = sids;
     return std::string{"ok valid="} + (valid ? "1" : "0") + " nsinks=" + std::to_string(out->get_sinks().size());
+  }
+  if (op == "SH" || op == "QC")
+  {
+#if H2_VARIANT >= 2
+    Actor* a = actor_of(w[1]);
+    if (!need_idle(a)) { return "noop"; }
+    if (!g_actor_has_ctx.count(a->id)) { return "noop"; } // asking would register the context
+    size_t cap = 0;
+    size_t const want = op == "SH" ? std::stoul(w[2]) : 0;
+    a->drive(
+      [&, a]
+      {
+        if (op == "SH") { FE::shrink_thread_local_queue(want); }
+        cap = FE::get_thread_local_queue_capacity();
+        a->result = "ok";
+      });
+    a->result.clear();
+    return "cap=" + std::to_string(cap);
+#else
+    return "noop";
+#endif
   }
   if (op == "SL")
   {
